@@ -303,6 +303,7 @@ impl C07 {
       skipped,
       case: serde_json::to_value(&c).unwrap(),
       outcome_hash: oh,
+      site_pairs: Default::default(),
     }
   }
 }
